@@ -137,6 +137,8 @@ def eval_block(block, acc):
                         if r.raised is None and not r.horizon and got != want:
                             acc.violation(f"filter_changes_framing|short_read|parsing={base['parsing']}", {"stream": data.hex(), "tokens": list(seq), "base": base, "devs": {str(i): 1}, "mask": mask}, f"mask={mask} got={[x[0].hex()[:16] for x in got]} want={[x[0].hex()[:16] for x in want]}")
         return
+    elif block[0] == "swallow":
+        it = ((streams.seq_bytes(sq), None) for sq in streams.swallow_seqs())
     elif block[0] == "runs":
         # 1,100 consecutive frames of one protocol (more than Python's recursion limit), then one frame of each
         tok, n = block[1], block[2]
@@ -178,6 +180,7 @@ def run_tier(tier, t0):
     blocks += [("tokens", None, 0)] + [("tokens", f, k) for f in ALPHABET]
     blocks.append(("long",))
     blocks += [("short", f) for f in streams.FRAME_TOKENS]
+    blocks.append(("swallow",))
     blocks += [("runs", t, 1100) for t in ("N1", "Uack", "R1", "Nbad")]
     acc = engine.sweep(blocks, eval_block)
     engine.finish(
@@ -189,7 +192,7 @@ def run_tier(tier, t0):
         ),
         assumptions=[
             "protocol of a raw item = reference classifier of its first two bytes (pynmeagps.NMEA_HDR for NMEA)",
-            "extra rings: boundary-length and content-refused frames between neighbour pairs; single short reads; runs of 1,100 consecutive frames of one protocol followed by one frame of each protocol",
+            "extra rings: headers announcing far more data than follows (length field >= 0x8000) before two frames; boundary-length and content-refused frames between neighbour pairs; single short reads; runs of 1,100 consecutive frames of one protocol followed by one frame of each protocol",
         ],
         vacuity=[
             ("streams with all three protocols present", (1, 2, 4) in acc.outcomes),
